@@ -75,6 +75,9 @@ def main():
         for l in lines():
             out.write(fn(l) + b"\n"); out.flush()
         out.flush()
+        if a[1] == "sig":
+            os.kill(os.getpid(), int(a[2]))
+            os._exit(99)
         os._exit(int(a[2]))
 
 
